@@ -221,32 +221,32 @@ op_update(const uint8_t *in, uint8_t *out, uint32_t s)
         }
 }
 static void
-op_final(const uint8_t *in, uint8_t *out, uint32_t s, uint8_t *tag)
+op_final(const uint8_t *in, uint8_t *out, uint32_t s, uint8_t *tag, uint64_t tl)
 {
         const void *k = gkey();
         switch (C->iface) {
         case I_GCM:
         case I_GCM_VARIV:
                 if (C->klen == 16)
-                        C->dir ? IMB_AES128_GCM_ENC_FINALIZE(m, k, &CTX.g, tag, 16) : IMB_AES128_GCM_DEC_FINALIZE(m, k, &CTX.g, tag, 16);
+                        C->dir ? IMB_AES128_GCM_ENC_FINALIZE(m, k, &CTX.g, tag, tl) : IMB_AES128_GCM_DEC_FINALIZE(m, k, &CTX.g, tag, tl);
                 else if (C->klen == 24)
-                        C->dir ? IMB_AES192_GCM_ENC_FINALIZE(m, k, &CTX.g, tag, 16) : IMB_AES192_GCM_DEC_FINALIZE(m, k, &CTX.g, tag, 16);
+                        C->dir ? IMB_AES192_GCM_ENC_FINALIZE(m, k, &CTX.g, tag, tl) : IMB_AES192_GCM_DEC_FINALIZE(m, k, &CTX.g, tag, tl);
                 else
-                        C->dir ? IMB_AES256_GCM_ENC_FINALIZE(m, k, &CTX.g, tag, 16) : IMB_AES256_GCM_DEC_FINALIZE(m, k, &CTX.g, tag, 16);
+                        C->dir ? IMB_AES256_GCM_ENC_FINALIZE(m, k, &CTX.g, tag, tl) : IMB_AES256_GCM_DEC_FINALIZE(m, k, &CTX.g, tag, tl);
                 break;
         case I_GMAC:
                 if (C->klen == 16)
-                        IMB_AES128_GMAC_FINALIZE(m, k, &CTX.g, tag, 16);
+                        IMB_AES128_GMAC_FINALIZE(m, k, &CTX.g, tag, tl);
                 else if (C->klen == 24)
-                        IMB_AES192_GMAC_FINALIZE(m, k, &CTX.g, tag, 16);
+                        IMB_AES192_GMAC_FINALIZE(m, k, &CTX.g, tag, tl);
                 else
-                        IMB_AES256_GMAC_FINALIZE(m, k, &CTX.g, tag, 16);
+                        IMB_AES256_GMAC_FINALIZE(m, k, &CTX.g, tag, tl);
                 break;
         case I_CHAPOLY:
                 if (C->dir)
-                        IMB_CHACHA20_POLY1305_ENC_FINALIZE(m, &CTX.c, tag, 16);
+                        IMB_CHACHA20_POLY1305_ENC_FINALIZE(m, &CTX.c, tag, tl);
                 else
-                        IMB_CHACHA20_POLY1305_DEC_FINALIZE(m, &CTX.c, tag, 16);
+                        IMB_CHACHA20_POLY1305_DEC_FINALIZE(m, &CTX.c, tag, tl);
                 break;
         case I_GCM_SGLJOB:
                 sgl_job(IMB_SGL_COMPLETE, in, out, 0, tag);
@@ -412,9 +412,26 @@ run_cfg_variant(long item, void *arg)
                                 memcpy(&CTX, n->ctx, ctxsize);
                                 memset(OUT, 0xEE, s + 16);
                                 memset(tag, 0, sizeof tag);
-                                op_final(MSG + p, OUT, s, tag);
+                                op_final(MSG + p, OUT, s, tag, 16);
                                 n_final++;
                                 n_trans++;
+                                /* every other tag length the direct finalize calls accept (truncated tag = prefix of the full one) */
+                                if (p == L && (C->iface == I_GCM || C->iface == I_GCM_VARIV || C->iface == I_GMAC || C->iface == I_CHAPOLY)) {
+                                        static const uint64_t TL[] = { 1, 4, 5, 8, 11, 12, 13, 15 };
+                                        for (unsigned q = 0; q < sizeof TL / sizeof TL[0]; q++) {
+                                                if (C->iface == I_CHAPOLY && TL[q] != 8 && TL[q] != 12)
+                                                        continue; /* ChaCha20-Poly1305 finalize: 16 and the IPsec truncations only */
+                                                uint8_t t2[32];
+                                                memcpy(&CTX, n->ctx, ctxsize);
+                                                memset(t2, 0xEE, sizeof t2);
+                                                op_final(MSG + p, OUT, s, t2, TL[q]);
+                                                n_trans++;
+                                                if (memcmp(t2, EXPTAG, TL[q]) || t2[TL[q]] != 0xEE) {
+                                                        path_str(n, s, pb, sizeof pb);
+                                                        viol("tag-differs", "truncated tag is not the prefix of the one-shot tag / bytes beyond the tag length written (segment = tag length)", p, (uint32_t) TL[q], pb);
+                                                }
+                                        }
+                                }
                                 if (final_has_data && memcmp(OUT, EXP + p, s)) {
                                         path_str(n, s, pb, sizeof pb);
                                         viol("segment-output-differs", "COMPLETE segment output differs from the one-shot result", p, s, pb);
